@@ -510,7 +510,11 @@ class ClientResponse(HeadersMixin):
             link: MultiDict[str | URL] = MultiDict()
 
             for param in params:
-                match = re.match(r"^\s*(\S*)\s*=\s*(['\"]?)(.*?)(\2)\s*$", param, re.M)
+                # Trailing blanks are cut off first: a lazy group in front of
+                # `\s*$` would scan the run of blanks once per character.
+                match = re.match(
+                    r"^\s*(\S*)\s*=\s*(['\"]?)(.*?)(\2)$", param.rstrip(), re.M
+                )
                 if match is None:  # Malformed param
                     continue
                 key, _, value, _ = match.groups()
